@@ -50,6 +50,11 @@ def run(ctx: RuleContext):
     ctx.sub(check_signatures_and_dataclass, ctx, r)
     ctx.sub(_bind_discipline, ctx)
     ctx.sub(_rollback, ctx, r)
+    # symbolic axes are evaluated over the bindings in force *at that axis* (a stale or shared scope makes a
+    # consistent call be rejected / an inconsistent one raise the wrong error)
+    from .c01 import check_eval_discipline
+
+    ctx.reuse("C02.6", check_eval_discipline, ctx, "C02.6")
 
 
 def _bind_discipline(ctx):
